@@ -481,6 +481,87 @@ func c03LabelIteration(c *Ctx, f *ssa.Function, subject ssa.Value) {
 			}
 		}
 	}
+	// inside the loop: a bad label ends the walk with its error, a good one lets it
+	// go on — the test `err != nil` on the validator's result dominates every
+	// back edge, leaves the loop when true and stays in it when false
+	okFlow, flowWhy := false, "no `err != nil` test of the label validator's result found in the loop body"
+	lb := core.LoopBody(head)
+	for b := range lb {
+		iff, isIf := b.Instrs[len(b.Instrs)-1].(*ssa.If)
+		if !isIf || b == head {
+			continue
+		}
+		cond, truth := core.StripNot(iff.Cond, true)
+		bo, isB := cond.(*ssa.BinOp)
+		if !isB || (bo.Op != token.NEQ && bo.Op != token.EQL) || !core.IsNilConst(bo.Y) {
+			continue
+		}
+		srcs := reachingErrValues(bo.X, iff)
+		if len(srcs) == 0 {
+			continue
+		}
+		allValidate := true
+		for _, v := range srcs {
+			call, isC := v.(*ssa.Call)
+			if !isC || call.Call.StaticCallee() == nil || !strings.HasPrefix(call.Call.StaticCallee().Name(), "Validate") || len(call.Call.Args) != 1 || call.Call.Args[0] != ssa.Value(label) {
+				allValidate = false
+			}
+		}
+		if !allValidate {
+			continue
+		}
+		nonNilSucc, nilSucc := b.Succs[0], b.Succs[1]
+		if (bo.Op == token.NEQ) != truth {
+			nonNilSucc, nilSucc = nilSucc, nonNilSucc
+		}
+		domLatches := true
+		for _, p := range head.Preds {
+			if head.Dominates(p) && !b.Dominates(p) {
+				domLatches = false
+			}
+		}
+		switch {
+		case core.Reaches(nonNilSucc, head) || nonNilSucc == head:
+			flowWhy = "after a label was found invalid the walk goes on"
+		case !(core.Reaches(nilSucc, head) || nilSucc == head):
+			flowWhy = "a valid label ends the walk: the labels after it are never validated"
+		case !domLatches:
+			flowWhy = "a path around the error test reaches the next iteration"
+		default:
+			okFlow = true
+		}
+	}
+	// SRV names: the '_' prefix selects the service-label validator, and only it
+	hasSvc := false
+	for b := range lb {
+		for _, in := range b.Instrs {
+			if call, ok := in.(*ssa.Call); ok && call.Call.StaticCallee() != nil && call.Call.StaticCallee().Name() == "ValidateServiceNameLabel" {
+				hasSvc = true
+			}
+		}
+	}
+	if hasSvc {
+		for b := range lb {
+			for _, in := range b.Instrs {
+				call, ok := in.(*ssa.Call)
+				if !ok || call.Call.StaticCallee() == nil || !strings.HasPrefix(call.Call.StaticCallee().Name(), "Validate") {
+					continue
+				}
+				wantPrefix := call.Call.StaticCallee().Name() == "ValidateServiceNameLabel"
+				okSel := false
+				for _, g := range core.GuardsOf(call) {
+					cond, truth := core.StripNot(g.Cond, g.Truth)
+					if hp, isC := cond.(*ssa.Call); isC && core.CalleeName(&hp.Call) == "strings.HasPrefix" && hp.Call.Args[0] == ssa.Value(label) {
+						if pre, isK := core.ConstString(hp.Call.Args[1]); isK && pre == "_" && truth == wantPrefix {
+							okSel = true
+						}
+					}
+				}
+				c.check(okSel, "C03.label-iteration", f, call.Call.StaticCallee().Name()+" is applied exactly to the labels "+map[bool]string{true: "with", false: "without"}[wantPrefix]+" a leading '_'", call,
+					"an SRV name is a sequence of '_'-service labels and hostname labels, each checked by its own validator")
+			}
+		}
+	}
 	// the exit validates the final label as TLD
 	okTLD := false
 	for _, ci := range core.CallsTo(f, core.ModPath+"/netutil.ValidateTLDLabel") {
@@ -488,7 +569,49 @@ func c03LabelIteration(c *Ctx, f *ssa.Function, subject ssa.Value) {
 			okTLD = true
 		}
 	}
-	c.check(okSrc && okCond && okBody && okTLD, "C03.label-iteration", f, what, hif,
-		sprintf("first Cut on the ASCII name and next on the previous tail: %v; loop runs while `found` of the last Cut (condition is %s): %v; body validates the current label: %v; exit passes the last label to ValidateTLDLabel: %v",
-			okSrc, condDesc, okCond, okBody, okTLD))
+	c.check(okSrc && okCond && okBody && okTLD && okFlow, "C03.label-iteration", f, what, hif,
+		sprintf("first Cut on the ASCII name and next on the previous tail: %v; loop runs while `found` of the last Cut (condition is %s): %v; body validates the current label: %v; an invalid label leaves the loop, a valid one continues: %v (%s); exit passes the last label to ValidateTLDLabel: %v",
+			okSrc, condDesc, okCond, okBody, okFlow, flowWhy, okTLD))
+}
+
+// reachingErrValues: v is an error value tested at `at`; when it is a load of
+// a local cell (named result under a deferred wrapper) the values of the
+// nearest stores on every path to the load are returned, otherwise v itself
+// (flattened through phis).
+func reachingErrValues(v ssa.Value, at ssa.Instruction) []ssa.Value {
+	ld, ok := v.(*ssa.UnOp)
+	if !ok || ld.Op != token.MUL {
+		return flattenPhi(v)
+	}
+	cell := ld.X
+	var out []ssa.Value
+	seen := map[*ssa.BasicBlock]bool{}
+	lastStore := func(b *ssa.BasicBlock, before ssa.Instruction) ssa.Value {
+		var last ssa.Value
+		for _, in := range b.Instrs {
+			if in == before {
+				break
+			}
+			if st, ok := in.(*ssa.Store); ok && st.Addr == cell {
+				last = st.Val
+			}
+		}
+		return last
+	}
+	var walk func(b *ssa.BasicBlock, before ssa.Instruction)
+	walk = func(b *ssa.BasicBlock, before ssa.Instruction) {
+		if v := lastStore(b, before); v != nil {
+			out = append(out, flattenPhi(v)...)
+			return
+		}
+		if seen[b] {
+			return
+		}
+		seen[b] = true
+		for _, p := range b.Preds {
+			walk(p, nil)
+		}
+	}
+	walk(ld.Block(), ld)
+	return out
 }
